@@ -372,6 +372,23 @@ def two_models(x0: int, x1: int, x2: int, x3: int) -> bool:
         for i in (0, 1):
             if _check_i3(ms[i], res[i], "model %d after step %d" % (i, k)) is not True:
                 return hx.end(False)
+    if hx.P.get('migrate'):
+        # an agent built for model 0 (its components carry model 0) that is not resident there joins model 1: the
+        # listings follow residency, not the model a component was created for
+        mover = ags[0][0] if ags[0][0] not in res[0] else ags[0][1]
+        if mover not in res[0]:
+            mover.id = "mover"
+            ms[1].environment.add_agent(mover)
+            res[1].append(mover)
+            for i in (0, 1):
+                if _check_i3(ms[i], res[i], "model %d after a foreign-built agent joined model 1" % i) is not True:
+                    return hx.end(False)
+            ms[1].environment.remove_agent("mover")
+            res[1].remove(mover)
+            for i in (0, 1):
+                if _check_i3(ms[i], res[i], "model %d after the foreign-built agent left" % i) is not True:
+                    return hx.end(False)
+            hx.reach('migrated')
     hx.reach('done')
     return hx.end(True)
 
@@ -576,9 +593,12 @@ def obligations(tier):
         X("history", history, parts=_hist_parts(k, ["plain"]), labels=tuple(_LABEL_OF.values()), labels_for=_hist_labels,
           timeout=300, group=6, encoded=enc,
           bounds={"operations": "<= %d over {join, leave, offline attach/detach, resident register (order-preserving), resident deregister}" % k}),
-        X("history_spatial", history, parts=_hist_parts(2 if tier == "quick" else 3, ["space"]), labels=tuple(_LABEL_OF.values()),
+        X("history_spatial", history, parts=_hist_parts(2 if tier == "quick" else 3, ["space"]) +
+          [{"ops": o, "world": w} for o in ("JRL", "JRU", "AJL", "JLJ") for w in ("space", "grid")], labels=tuple(_LABEL_OF.values()),
           labels_for=_hist_labels, timeout=300, group=6, encoded=senc, bounds={"operations": "<= %d in a SpaceWorld" % (2 if tier == "quick" else 3)}),
-        X("two_models", two_models, parts=_two_parts(k), labels=("done",), timeout=300, group=4, encoded=enc,
+        X("two_models", two_models, parts=_two_parts(k) + [{"ops": o, "migrate": True} for o in ("jJ", "jlJ", "Jj")],
+          labels=("done", "migrated"), labels_for=lambda p: ("done", "migrated") if p.get("migrate") else ("done",),
+          timeout=300, group=4, encoded=enc,
           bounds={"operations": "<= %d join/leave interleaved over two models" % k}),
     ]
     for fid, fn, lab in (("F1", f1_attach_resident, "attached"), ("F2", f2_detach_resident, "detached"),
